@@ -8,9 +8,13 @@ MCWorkerMaps == { [i \in MCIds |-> 0], [i \in MCIds |-> i - 1] }
 MCIds3 == {1, 2, 3}
 MCWorkerMaps3 == { f \in [MCIds3 -> MCWorkers] : f[1] = 0 }
 MCSharedOnly == { [i \in MCIds |-> 0] }
-C(k, e, o) == [k |-> k, e |-> e, o |-> o]
-MCCfgQuick == { C("every", 1, 0), C("every", 2, 1), C("cron", 3, 0) }
+C(k, e, o) == [k |-> k, e |-> e, o |-> o, end |-> -1]
+U(e, o, end) == [k |-> "until", e |-> e, o |-> o, end |-> end]
+\* U(1,0,2): occurrences 1 and 2, then the schedule has ended
+MCCfgQuick == { C("every", 1, 0), C("every", 2, 1), C("cron", 3, 0), U(1, 0, 2) }
 \* (a negative offset runs the task before its scheduled time: Schedulable.Offset allows it)
-MCCfgThorough == { C("every", 1, 0), C("every", 1, 1), C("every", 2, 1), C("every", 3, 0), C("cron", 2, 0), C("cron", 3, 1), C("every", 2, -1), C("cron", 3, -1) }
-MCCfgLive == { C("every", 1, 0), C("cron", 2, 1) }
+MCCfgThorough == { C("every", 1, 0), C("every", 1, 1), C("every", 2, 1), C("every", 3, 0), C("cron", 2, 0), C("cron", 3, 1), C("every", 2, -1), C("cron", 3, -1),
+                   \* ending schedules; in the generator `end` is relative to now (SchedulerSim.Concrete)
+                   U(1, 0, 2), U(2, 1, 3), U(3, -1, 5) }
+MCCfgLive == { C("every", 1, 0), C("cron", 2, 1), U(1, 0, 2) }
 =============================================================================
